@@ -28,7 +28,13 @@ type Obj struct {
 
 func (o *Obj) Get() int       { o.L.Add("Get@%d", o.N); return o.N }
 func (o *Obj) Plus(k int) int { o.L.Add("Plus@%d(%d)", o.N, k); return o.N + k }
-func (o Obj) Title() string   { o.L.Add("Title@%d", o.N); return "<" + o.Name + ">" }
+func (o *Obj) String() string {
+	if o == nil {
+		return "<nil>"
+	}
+	return "obj" + o.Name
+}
+func (o Obj) Title() string { o.L.Add("Title@%d", o.N); return "<" + o.Name + ">" }
 func (o *Obj) Pick(a, b interface{}) interface{} {
 	o.L.Add("Pick@%d(%v,%v)", o.N, Norm(a), Norm(b))
 	return b
@@ -38,29 +44,30 @@ type MyInt int
 type MyStr string
 
 type Env struct {
-	B, C  bool
-	I, J  int
-	F, G  float64
-	S, T  string
-	A, A2 []int
-	FA    []float64
-	NN    [][]int
-	SA    []string
-	AA    []interface{}
-	OS    []*Obj
-	M     map[string]int
-	MA    map[string]interface{}
-	O, P  *Obj
-	X, Y  interface{}
-	I8    int8
-	U8    uint8
-	I64   int64
-	F32   float32
-	U     uint
-	MI    MyInt
-	MS    MyStr
-	FnInc func(int) int
-	L     *Log
+	B, C    bool
+	I, J    int
+	F, G    float64
+	S, T    string
+	A, A2   []int
+	FA      []float64
+	NN      [][]int
+	SA      []string
+	AA      []interface{}
+	OS      []*Obj
+	M       map[string]int
+	MA      map[string]interface{}
+	O, P    *Obj
+	X, Y    interface{}
+	I8      int8
+	U8      uint8
+	I64     int64
+	F32     float32
+	U       uint
+	MI      MyInt
+	MS      MyStr
+	FnInc   func(int) int
+	FnOpAdd func(int, int) int
+	L       *Log
 }
 
 func (e Env) T1() bool { e.L.Add("T1"); return true }
@@ -97,8 +104,24 @@ func (e Env) Second(a, b interface{}) interface{} {
 	e.L.Add("Second(%v,%v)", Norm(a), Norm(b))
 	return b
 }
-func (e Env) MkArr(n int) []int { e.L.Add("MkArr(%d)", n); return make([]int, n) }
-func (e Env) Boom(i int) int    { e.L.Add("Boom(%d)", i); panic("boom") }
+func (e Env) MkArr(n int) []int           { e.L.Add("MkArr(%d)", n); return make([]int, n) }
+func (e Env) OpAdd(a, b int) int          { e.L.Add("OpAdd(%d,%d)", a, b); return a + b + 1000 }
+func (e Env) OpAddF(a, b float64) float64 { e.L.Add("OpAddF(%v,%v)", a, b); return a + b + 0.5 }
+func (e Env) OpCat(a, b string) string    { e.L.Add("OpCat(%q,%q)", a, b); return a + "+" + b }
+func (e Env) OpSubS(a, b string) string   { e.L.Add("OpSubS(%q,%q)", a, b); return a + "-" + b }
+func (e Env) OpEqObj(a, b *Obj) bool      { e.L.Add("OpEqObj"); return a != nil && b != nil && a.N == b.N }
+func (e Env) OpLtObj(a, b *Obj) bool      { e.L.Add("OpLtObj"); return a != nil && b != nil && a.N < b.N }
+func (e Env) OpAny(a, b interface{}) interface{} {
+	e.L.Add("OpAny(%s,%s)", Norm(a), Norm(b))
+	return Norm(a) + "&" + Norm(b)
+}
+func (e Env) OpIn(a, b string) bool          { e.L.Add("OpIn(%q,%q)", a, b); return strings.Contains(b, a) }
+func (e Env) OpAnd(a, b int) bool            { e.L.Add("OpAnd(%d,%d)", a, b); return a != 0 && b != 0 }
+func (e Env) OpStr(a, b fmt.Stringer) string { e.L.Add("OpStr"); return a.String() + "~" + b.String() }
+func (e Env) Two(a, b int) (int, int)        { return a, b }
+func (e Env) NoResult(a, b int)              {}
+func (e Env) Three(a, b, c int) int          { return a + b + c }
+func (e Env) Boom(i int) int                 { e.L.Add("Boom(%d)", i); panic("boom") }
 
 // Domain of one member: constructors taking the run's log.
 type Domain []func(l *Log) interface{}
@@ -246,6 +269,7 @@ func Make(v Val) *Env {
 		}
 	}
 	e.FnInc = func(i int) int { l.Add("FnInc(%d)", i); return i + 1 }
+	e.FnOpAdd = func(a, b int) int { l.Add("FnOpAdd(%d,%d)", a, b); return a + b + 100 }
 	return e
 }
 
